@@ -28,7 +28,7 @@ BUDGET = {
 }
 RULE = (
     "cases: form (string | function + kwargs | module) x generated body (0-4 sends, 0-2 receives, optional refused close(), "
-    "optional raise at a generated statement) x kwargs of every serialisable type x transports/backends x schedules; and "
+    "optional raise at a generated statement) x kwargs of every serialisable type x signature shape (plain, positional-only channel, keyword-only, **kw) x leading blank lines of string sources x transports/backends x schedules; and "
     "invalid function shapes (lambda, closure, module-level global, imported module global, wrong first parameter, no "
     "parameter, decorated wrapper, kwargs with a source string) checked for ValueError/TypeError with an unchanged wire log.  "
     "Non-trivial = the body started (or the rejection was evaluated) under a schedule with real choices."
